@@ -1,8 +1,8 @@
 SPECIFICATION Spec
 CONSTANTS Peekers = {"p1", "p2"}
- NThreads = 2
- MaxPeeks = 2
- MaxTakes = 1
+ NThreads = 3
+ MaxPeeks = 3
+ MaxTakes = 2
 INVARIANT OK
 INVARIANT SeqParity
 CHECK_DEADLOCK FALSE
